@@ -61,17 +61,20 @@ def runBatch (checkHeight : Bool) (lastprev : Option BM) (slotBase lastheight le
   arrivals.foldl (fun acc a => acc.bind (fun s => job checkHeight lastprev slotBase lastheight s a.1 a.2))
     (some { maps := List.replicate len none, newprev := newprev0 })
 
+/-- the first height of a batch whose predecessor's last map is `np` (`np.height + 1`, 0 when there is none) -/
+def slotBaseOf (np : Option BM) : Nat := match np with | some p => p.height + 1 | none => 0
+
 /-- `BatchIsValidMaps`: batches in order; `arrive b` gives the arrival order of batch `b`'s jobs
     as (requested height, response) pairs -/
 def validate (checkHeight : Bool) (prev : Option BM) (limit : Nat) (batches : List Batch)
     (arrive : Batch → List (Nat × BM)) : Bool :=
-  let reqBase := match prev with | some p => p.height + 1 | none => 0
+  let reqBase := slotBaseOf prev
   let rec go (bs : List Batch) (newprev : Option BM) : Bool :=
     match bs with
     | [] => true
     | b :: rest =>
       let lastprev := newprev
-      let slotBase := match lastprev with | some p => p.height + 1 | none => 0
+      let slotBase := slotBaseOf lastprev
       let len := if (b.last + 1) % limit = 0 then limit else (b.last + 1) % limit
       match runBatch checkHeight lastprev slotBase (reqBase + b.last) len (arrive b) newprev with
       | none => false
